@@ -9,7 +9,7 @@ CONSTANTS
   MaxLog = 16
   KeyByCtx = TRUE
   CompactByRef = TRUE
-  Panics = TRUE
+  Panics = FALSE
   StopLast = TRUE
   StampSource = TRUE
   OneSpawnError = TRUE
